@@ -115,6 +115,27 @@ def oracle(case, ctx):
                                 f"inverse log-det {ldi!r} != -forward log-det {ld_at!r} at the inverse image "
                                 f"(|sum|={erri:.3e}, tol={tol_i:.3e}); y={y.tolist()}")
             ctx.ratio(f"{s.kind}.inv_logdet_err/tol", min(erri, abs(ldi + ld)) / tol_i)
+    # ---- scalar leaves: the same clause on a dense grid (every spline bin, both tails, every pool value) ----------
+    if s.kind == "leaf" and np.shape(x) == () and s.c is None and fwd_dir == "transform":
+        import jax
+        lo, hi = -6.0, 6.0
+        if s.name == "RQS":
+            iv = s.node.obj.interval
+            lo, hi = float(iv[0]) - 0.5, float(iv[1]) + 0.5
+        g = np.unique(np.concatenate([np.linspace(lo, hi, 161), np.asarray([v for v in s.pool if np.isfinite(v) and abs(v) < 50])]))
+        g = bd.to_domain(g, np.full(g.shape, int(s.dom)))
+        lds = np.asarray(jax.vmap(lambda v: obj.transform_and_log_det(v)[1])(jnp.asarray(g)), np.float64)
+        der = np.asarray(jax.vmap(jax.grad(lambda v: obj.transform(v)))(jnp.asarray(g)), np.float64)
+        pool = set(float(v) for v in s.pool)
+        with np.errstate(all="ignore"):
+            want = np.log(np.abs(der))
+        for gi, a, b in zip(g, lds, want):
+            if float(gi) in pool or not np.isfinite(b) or not np.isfinite(a):
+                continue  # kinks (autodiff tie conventions) are judged by the main clause above
+            if abs(a - b) > RTOL * (1 + abs(b)) * 100:
+                raise Violation(_sig(s, "transform_and_log_det.logdet|grid"),
+                                f"at x={gi!r}: reported log-det {a!r}, log|d transform/dx| (autodiff) = {b!r}")
+        ctx.hist("scalar_grid", s.name)
     # ---- non-trivial: |ld| > 1e-3 and the log-det actually depends on the point -----------------
     ctx.hist(f"{s.kind}_kind", s.name)
     ctx.hist("rank", np.ndim(x))
